@@ -234,6 +234,14 @@ theorem C19_no_loss_no_dup (arrival arrival' : List (List Dir)) (hp : arrival.Pe
   rw [stream_get, stream_get]
   exact (List.Perm.flatten hp).filter _
 
+/-- **the monitor's predicate holds on the model** (`censusOK` is what the harness evaluates on the real
+`knut print` output): for every arrival order the built journal shows exactly the arriving directives —
+the same multiset — with the days in date order; and the predicate's first half *is* multiset equality. -/
+theorem C19_census (arrival : List (List Dir)) :
+    censusOK arrival.flatten (printed (fromModelStream arrival).build) = true ∧
+    ∀ e o : List Dir, sameDirs e o = true ↔ e.Perm o :=
+  ⟨census_model arrival, sameDirs_iff_perm⟩
+
 /-- `Build()` hands the days to the pipeline sorted by date … -/
 theorem C19_build_sorted (b : Builder) : b.build.Pairwise (fun x y => x.date ≤ y.date) := build_sorted b
 
@@ -254,5 +262,8 @@ example : accept 2 1 [.begin 1, .begin 2] = none := by decide
 example : (laccept 1 2 [.begin 1 0, .done 1 0, .begin 1 1, .sink 0, .done 1 1, .sink 1]).isSome = true := by decide
 example : laccept 1 2 [.begin 1 1] = none := by decide
 example : (fromModelStream [[⟨3, .open_, 1⟩], [⟨3, .open_, 2⟩, ⟨4, .price, 3⟩]]).get 3 .open_ = [⟨3, .open_, 1⟩, ⟨3, .open_, 2⟩] := by decide
+example : censusOK [⟨3, .open_, 1⟩, ⟨4, .price, 3⟩] [⟨4, .price, 3⟩, ⟨3, .open_, 1⟩] = false := by decide
+example : censusOK [⟨3, .open_, 1⟩, ⟨4, .price, 3⟩] [⟨3, .open_, 1⟩] = false := by decide
+example : censusOK [⟨3, .open_, 1⟩, ⟨4, .price, 3⟩] [⟨3, .open_, 1⟩, ⟨4, .price, 3⟩] = true := by decide
 
 end Knut.C19
